@@ -100,6 +100,15 @@ pub fn read<const N: usize, Ns>(reader: impl Read) -> Result<Mappings<N, Ns>> {
 
 	let mut mappings = Mappings::new(MappingInfo { namespaces });
 
+	// the section of the header itself: the property lines directly after the header line, one level deeper
+	WithMoreIdentIter::new(&mut lines).next_level().on_every_line(|_, line| {
+		if line.first_field == "c" {
+			add_comment(&mut mappings.javadoc, line)
+		} else {
+			Ok(())
+		}
+	}).context("reading header sub-sections")?;
+
 	WithMoreIdentIter::new(&mut lines).on_every_line(|iter, line| {
 		if line.first_field == "c" {
 			let names = line.into_names()?;
